@@ -1,45 +1,48 @@
-package hackpadfs_test
+package mount_test
 
 import (
 	"testing"
 
 	"github.com/hack-pad/hackpadfs"
 	"github.com/hack-pad/hackpadfs/mem"
+	"github.com/hack-pad/hackpadfs/mount"
 )
 
-// Rename through a generic Sub view fails with ErrNotImplemented although the
-// same Rename on the parent at dir/name succeeds.
-func TestHuntSubRenameNotImplemented(t *testing.T) {
-	newParent := func() hackpadfs.FS {
-		fs, err := mem.NewFS()
-		if err != nil {
-			t.Fatal(err)
-		}
-		if err := fs.Mkdir("d", 0700); err != nil {
-			t.Fatal(err)
-		}
-		if err := hackpadfs.WriteFullFile(fs, "d/f", []byte("x"), 0600); err != nil {
-			t.Fatal(err)
-		}
-		return fs
+func TestSubAboveMountPoint(t *testing.T) {
+	root, _ := mem.NewFS()
+	if err := root.MkdirAll("a/b", 0o700); err != nil {
+		t.Fatal(err)
 	}
-
-	parent := newParent()
-	parentErr := hackpadfs.Rename(parent, "d/f", "d/g")
-	if parentErr != nil {
-		t.Fatalf("parent rename unexpectedly failed: %v", parentErr)
-	}
-
-	viewParent := newParent()
-	view, err := hackpadfs.Sub(viewParent, "d")
+	inner, _ := mem.NewFS()
+	f, err := hackpadfs.Create(inner, "inm")
 	if err != nil {
 		t.Fatal(err)
 	}
-	viewErr := hackpadfs.Rename(view, "f", "g")
-	if viewErr != nil {
-		t.Errorf("Rename(Sub(fs, d), f, g) = %v; Rename(fs, d/f, d/g) = nil", viewErr)
+	f.Close()
+	m, _ := mount.NewFS(root)
+	if err := m.AddMount("a/b", inner); err != nil {
+		t.Fatal(err)
 	}
-	if _, err := hackpadfs.Stat(viewParent, "d/g"); err != nil {
-		t.Errorf("after Rename through the view, d/g is missing in the parent: %v", err)
+	if _, err := hackpadfs.Stat(m, "a/b/inm"); err != nil {
+		t.Fatal("parent:", err)
+	}
+	view, err := hackpadfs.Sub(m, "a")
+	if err != nil {
+		t.Fatal(err)
+	}
+	if _, err := hackpadfs.Stat(view, "b/inm"); err != nil {
+		t.Error("view:", err)
+	}
+	// a write through the view must land in the mounted file system, not in the root below the mount point
+	g, err := hackpadfs.Create(view, "b/new")
+	if err != nil {
+		t.Fatal(err)
+	}
+	g.Close()
+	if _, err := hackpadfs.Stat(inner, "new"); err != nil {
+		t.Error("write through the view did not reach the mounted file system:", err)
+	}
+	if _, err := hackpadfs.Stat(root, "a/b/new"); err == nil {
+		t.Error("write through the view landed in the root file system, hidden below the mount point")
 	}
 }
